@@ -203,7 +203,7 @@ theorem bal_cmd (fuel : Nat) (ih : Bal fuel) : ∀ s c, (execCmd (fuel+1) s c).1
   | setE on => simp [execCmd]
   | setM on => simp [execCmd]
   | unknown => simp [execCmd]
-  | absent w a => simp [execCmd]
+  | absent w r a => simp [execCmd]
   | tick c k => simp only [execCmd]; split <;> simp
   | call name =>
     simp only [execCmd]
